@@ -45,7 +45,7 @@ var propMix = map[string][]mixEntry{
 	"C08": {{"reward", "", 5}, {"mixed", "", 2}, {"long", "", 1}},
 	"C09": {{"authz", "", 6}, {"mixed", "", 2}},
 	"C10": {{"authz", "", 6}, {"mixed", "", 2}},
-	"C11": {{"long", "", 6}, {"mixed", "", 2}},
+	"C11": {{"long", "", 1}},
 	"C12": {{"timeout", "", 6}, {"mixed", "", 2}},
 	"C13": {{"mixed", "", 6}, {"timeout", "", 2}, {"long", "", 1}},
 	"C14": {{"mixed", "", 6}, {"timeout", "", 2}, {"long", "", 1}},
@@ -112,6 +112,20 @@ func cmdWorker() {
 		out.WriteByte('\n')
 		out.Flush()
 	}
+}
+
+func replayDir() string {
+	if p := os.Getenv("VERIF_REPLAY_DIR"); p != "" {
+		return p
+	}
+	return "/verif/replays"
+}
+
+func evidenceDir() string {
+	if p := os.Getenv("VERIF_EVIDENCE_DIR"); p != "" {
+		return p
+	}
+	return "/verif/evidence"
 }
 
 func knownPath() string {
@@ -198,6 +212,12 @@ func cmdCheck(args []string) {
 		return RunSpec{Index: i, Seed: runSeed(base, i), Profile: m.Profile, Prop: prop, Mode: m.Mode, Fuel: 5_000_000, Stop: true}
 	}
 	stop := false
+	allLong := true
+	for _, m := range mix {
+		if !getProfile(m.Profile).Long {
+			allLong = false
+		}
+	}
 	var wg sync.WaitGroup
 	for w := 0; w < workers; w++ {
 		wg.Add(1)
@@ -224,6 +244,12 @@ func cmdCheck(args []string) {
 				sp := specFor(next)
 				next++
 				if left := time.Until(deadline); left < 40*time.Second && getProfile(sp.Profile).Long {
+					if allLong {
+						mu.Lock()
+						stop = true
+						mu.Unlock()
+						break
+					}
 					sp.Profile = "mixed" // a long-horizon run would overrun the budget
 				}
 				mu.Unlock()
@@ -345,7 +371,7 @@ func countOps(t *Trace) int {
 }
 
 func reportViolation(prop string, tr *Trace, v Violation, sp RunSpec) string {
-	os.MkdirAll("/verif/replays", 0o755)
+	os.MkdirAll(replayDir(), 0o755)
 	opt := RunOpts{Props: map[string]bool{prop: true}, Known: LoadKnown(knownPath()), Fuel: sp.Fuel, Mode: sp.Mode, Stop: true}
 	// cut the trace after the violating step
 	cut := &Trace{Version: tr.Version, Cfg: tr.Cfg, Steps: append([]Step{}, tr.Steps...)}
@@ -355,7 +381,7 @@ func reportViolation(prop string, tr *Trace, v Violation, sp RunSpec) string {
 	min := Shrink(cut, v.Sig(), opt, time.Duration(envInt("VERIF_SHRINK_S", 150))*time.Second, 1500)
 	rf := &ReplayFile{Engine: 1, Property: prop, Signature: v.Sig(), Message: v.Msg, Mode: sp.Mode, Fuel: sp.Fuel, Minimised: true, OrigSteps: len(tr.Steps), OrigOps: countOps(tr), Trace: min}
 	name := fmt.Sprintf("%s-%s-%d.json", prop, short(sha([]byte(v.Sig()))), tr.Cfg.Seed)
-	path := filepath.Join("/verif/replays", name)
+	path := filepath.Join(replayDir(), name)
 	b, _ := json.MarshalIndent(rf, "", " ")
 	os.WriteFile(path, b, 0o644)
 	if confirmReplay(path) {
